@@ -23,10 +23,10 @@ def extra_lines(rng, tier):
         o = gen.order(kind, oid="u1", price=100, side="S", ts=5, tif="GTC", vis=q, hid=rng.choice([0, 5]) if kind != "S" else 0,
                       thr=0, amt=None, auto=True)
         second = rng.choice(["UPD C:u1", "UPD UQ:u1:%d" % rng.choice([1, 2, q]), "UPD C:u1;UPD UQ:u1:3"])
-        out.append("w%d|100|ADD %s|MATCH %d u9000#%s|r%d|drain,mode=O" % (i, o, m, second, rng.randint(1, 10 ** 9)))
+        out.append("w%d|100|ADD %s|MATCH %d u9000#%s|r%d|drain,mode=O,proj=map+tk" % (i, o, m, second, rng.randint(1, 10 ** 9)))
     return out
 
 
 def run(tier, seed, replay=None):
     return run_conc_property("C13", tier, seed, replay, judges=[("acknowledgements", judge)], classify=classify,
-                             extra_lines=extra_lines, n_quick=2000, n_thorough=50000)
+                             extra_lines=extra_lines, n_quick=2000, n_thorough=50000, flags="drain,mode=O,proj=map+tk", final_keys=())
